@@ -80,7 +80,7 @@ def _get_uses_of(node: ast.AST, scope: ast.AST, source: str) -> Iterable[ast.Nam
     # Assignments further down in the same scope, e.g. in the body of a loop, are the same variable
     ctx_store_candidates = {
         refnode
-        for refnode in core.walk(scope, ast.Name(ctx=ast.Store, id=name))
+        for refnode in core.walk(scope, ast.Name(ctx=(ast.Store, ast.Del), id=name))
         if refnode not in blacklisted_names and refnode is not node
     }
 
@@ -690,7 +690,8 @@ def _iter_unused_names(
     # immediately be deleted.
     names_in_scope = {name.id for name in core.walk(scope, ast.Name)}
     for name in names_in_scope - preserve:
-        if not any(core.walk(scope, ast.Name(id=name, ctx=(ast.Load)))):
+        # "del name" needs the name to be bound as much as a read does
+        if not any(core.walk(scope, ast.Name(id=name, ctx=(ast.Load, ast.Del)))):
             for node in core.walk(scope, ast.Name(id=name)):
                 yield node
 
